@@ -1498,6 +1498,8 @@ from mlmverif.selfcheck import B, OK  # noqa: E402
 _R = 'aggregates/rolling_stats.py'
 _C = 'aggregates/classification.py'
 VARIANTS = [
+    OK('sampler-merge-loop-variables-renamed', 'aggregates/rolling_stats.py',
+       "    for samples, others in zip(self._samples, other.samples, strict=True):\n      samples.extend(others)\n", "    for mine, theirs in zip(self._samples, other.samples, strict=True):\n      mine.extend(theirs)\n"),
     B('relative-difference-counts-rows', 'aggregates/rolling_stats.py',
       "    self.num_samples += x.size\n", "    self.num_samples += x.shape[0] if x.ndim else 1\n", 'R-C01-26'),
     B('sampler-merge-grows-the-longer-list', 'aggregates/rolling_stats.py',
